@@ -376,6 +376,8 @@ struct Member {
   int bit_width;
 };
 
+extern bool in_pp_const_expr;
+
 extern Type *ty_void;
 extern Type *ty_bool;
 
